@@ -269,6 +269,15 @@ def inline_fresh_regexes(tree: ast.Module, ref_mod: dict) -> None:
     ast.fix_missing_locations(tree)
 
 
+def _is_module_function_ref(tree: ast.Module, val: ast.expr) -> bool:
+    """`binascii.crc_hqx`, `struct.pack`: an attribute of a module this file imports with `import <mod>` (a function bound once at
+    import time under a local name: the same object at every use)."""
+    if not (isinstance(val, ast.Attribute) and isinstance(val.value, ast.Name)):
+        return False
+    imported = {a.asname or a.name for st in tree.body if isinstance(st, ast.Import) for a in st.names}
+    return val.value.id in imported
+
+
 def inline_fresh_constants(tree: ast.Module, ref_mod: dict) -> None:
     known = set(ref_mod.get("consts", []))
     known_cls = ref_mod.get("class_consts", {})
@@ -283,7 +292,7 @@ def inline_fresh_constants(tree: ast.Module, ref_mod: dict) -> None:
             tgt, val = st.targets[0].id, st.value
         elif isinstance(st, ast.AnnAssign) and isinstance(st.target, ast.Name) and st.value is not None:
             tgt, val = st.target.id, st.value
-        if tgt and tgt not in known and stores.get(tgt, 0) == 1 and _is_literal(val):
+        if tgt and tgt not in known and stores.get(tgt, 0) == 1 and (_is_literal(val) or _is_module_function_ref(tree, val)):
             fresh[tgt] = val
     fresh_cls: Dict[str, Dict[str, ast.expr]] = {}
     for c in [n for n in tree.body if isinstance(n, ast.ClassDef)]:
@@ -428,17 +437,21 @@ def inline_fresh_helpers(tree: ast.Module, ref_mod: dict, protect_renames: bool 
                         deco = [_u(d) for d in m.decorator_list]
                         if deco in ([], ["staticmethod"]):
                             cands[(st.name, m.name)] = (m, st, "static" if deco else "method")
-                        elif deco == ["property"] and m.name.startswith("_") and not any(isinstance(x, ast.FunctionDef) and x.name == m.name and x is not m for x in st.body):
-                            # a fresh read-only private property that is one expression: every self.<name> is that expression
+                        elif deco == ["property"] and not any(isinstance(x, ast.FunctionDef) and x.name == m.name and x is not m for x in st.body):
+                            # a fresh read-only property (private or a new public query the old code is routed through) that is one
+                            # expression: inside the class every `self.<name>` is that expression; the definition goes when nothing else
+                            # in the module mentions the name
                             pb = _strip_doc(m.body)
                             uses_ = [x for x in ast.walk(tree) if isinstance(x, ast.Attribute) and x.attr == m.name]
-                            inside = {id(x) for f_ in st.body if isinstance(f_, ast.FunctionDef) for x in ast.walk(f_)}
-                            if len(pb) == 1 and isinstance(pb[0], ast.Return) and pb[0].value is not None and uses_ \
-                                    and all(isinstance(x.ctx, ast.Load) and isinstance(x.value, ast.Name) and x.value.id == "self" and id(x) in inside for x in uses_) \
+                            inside = {id(x) for f_ in st.body if isinstance(f_, ast.FunctionDef) and f_ is not m for x in ast.walk(f_)}
+                            mine_ = [x for x in uses_ if isinstance(x.ctx, ast.Load) and isinstance(x.value, ast.Name) and x.value.id == "self" and id(x) in inside]
+                            stores_ = [x for x in uses_ if not isinstance(x.ctx, ast.Load)]
+                            if len(pb) == 1 and isinstance(pb[0], ast.Return) and pb[0].value is not None and mine_ and not stores_ \
                                     and not any(isinstance(x, (ast.Lambda, ast.Yield, ast.Await, ast.NamedExpr)) for x in ast.walk(pb[0])):
-                                for x in uses_:
+                                for x in mine_:
                                     _replace_node(tree, x, copy.deepcopy(pb[0].value))
-                                st.body = [x for x in st.body if x is not m] or [ast.Pass()]
+                                if len(mine_) == len(uses_):
+                                    st.body = [x for x in st.body if x is not m] or [ast.Pass()]
                                 changed = True
         for (cname, hname), (h, owner, kind) in list(cands.items()):
             if hname.startswith("__") and hname.endswith("__"):
@@ -732,6 +745,79 @@ def inline_fresh_helpers(tree: ast.Module, ref_mod: dict, protect_renames: bool 
     ast.fix_missing_locations(tree)
 
 
+def flatten_reraising_try(fn: ast.FunctionDef, ref_fn: Optional[dict]) -> bool:
+    """`try: BODY except E [as e]: raise E(<another message>) [from ...]` where the reference function has no handler for E: the
+    same exception type leaves the function in the same situations, only its text differs -- the block is replaced by BODY."""
+    ref_src = (ref_fn or {}).get("src", "")
+    changed = False
+    for owner, fld, blk in blocks_of(fn):
+        i = 0
+        while i < len(blk):
+            st = blk[i]
+            if isinstance(st, ast.Try) and not st.orelse and not st.finalbody and st.handlers:
+                ok = True
+                for h in st.handlers:
+                    types = [dotted_name(t) for t in (h.type.elts if isinstance(h.type, ast.Tuple) else [h.type])] if h.type is not None else []
+                    body = [b for b in h.body if not (isinstance(b, ast.Expr) and isinstance(b.value, ast.Call) and dotted_name(b.value.func).split(".")[0] in ("logger", "log", "logging"))]
+                    if not types or len(types) != 1 or len(body) != 1 or not isinstance(body[0], ast.Raise) or body[0].exc is None:
+                        ok = False
+                        break
+                    exc = body[0].exc
+                    raised = dotted_name(exc.func) if isinstance(exc, ast.Call) else dotted_name(exc)
+                    if raised != types[0] or f"except {types[0]}" in ref_src:
+                        ok = False
+                        break
+                if ok:
+                    blk[i:i + 1] = st.body
+                    changed = True
+                    continue
+            i += 1
+    return changed
+
+
+def flatten_fresh_locks(tree: ast.Module, ref_mod: dict) -> bool:
+    """`self.<x> = threading.Lock()` / `RLock()` for an attribute the reference module does not mention, and `with <obj>.<x>:` around
+    statements: mutual exclusion changes no sequential behaviour, so the block is replaced by its body and the lock's creation is
+    dropped.  (What a lock can break -- a wait or a callback while it is held, a lock that is not re-entrant taken twice -- is the
+    business of the shared lock clause in rules/shared.py, which looks at the tree before this pass.)"""
+    import re as _re
+    ref_attrs = set()
+    for f_ in ref_mod.get("funcs", {}).values():
+        ref_attrs |= set(_re.findall(r"\.([A-Za-z_][A-Za-z_0-9]*)", f_.get("src", "")))
+    locks = set()
+    for n in ast.walk(tree):
+        if isinstance(n, ast.Assign) and len(n.targets) == 1 and isinstance(n.targets[0], ast.Attribute) and isinstance(n.value, ast.Call) \
+                and dotted_name(n.value.func) in ("threading.Lock", "threading.RLock", "Lock", "RLock") and not n.value.args and n.targets[0].attr not in ref_attrs:
+            locks.add(n.targets[0].attr)
+    if not locks:
+        return False
+    changed = False
+    for owner in [x for x in ast.walk(tree) if hasattr(x, "body") and isinstance(getattr(x, "body"), list)]:
+        for fld in ("body", "orelse", "finalbody"):
+            blk = getattr(owner, fld, None)
+            if not isinstance(blk, list):
+                continue
+            i = 0
+            while i < len(blk):
+                st = blk[i]
+                if isinstance(st, ast.With) and len(st.items) == 1 and st.items[0].optional_vars is None and isinstance(st.items[0].context_expr, ast.Attribute) \
+                        and st.items[0].context_expr.attr in locks:
+                    blk[i:i + 1] = st.body
+                    changed = True
+                    continue
+                if isinstance(st, ast.Assign) and len(st.targets) == 1 and isinstance(st.targets[0], ast.Attribute) and st.targets[0].attr in locks \
+                        and isinstance(st.value, ast.Call) and dotted_name(st.value.func) in ("threading.Lock", "threading.RLock", "Lock", "RLock"):
+                    del blk[i]
+                    changed = True
+                    continue
+                i += 1
+            if not blk and fld == "body":
+                blk.append(ast.Pass())
+    for h in [x for x in ast.walk(tree) if isinstance(x, ast.ExceptHandler)]:
+        pass
+    return changed
+
+
 _WIDENING_TYPES = {"memoryview", "list", "tuple", "os.PathLike", "PathLike", "pathlib.Path", "Path", "pathlib.PurePath", "PurePath", "array.array", "array"}
 
 
@@ -775,6 +861,30 @@ def drop_fresh_widening_guards(tree: ast.Module, ref_mod: dict) -> bool:
                 rf = ref_funcs.get(q)
                 ref_tests = set(rf.get("tests", [])) if rf is not None else set()
                 params = {a.arg for a in n.args.posonlyargs + n.args.args + n.args.kwonlyargs}
+                # a fresh helper that is the identity except for exotic types: `if isinstance(p, (bytes, bytearray)): return p` /
+                # `if isinstance(p, (memoryview, list, tuple)): return bytes(p)` / `return p`  ->  `return p`
+                if rf is None:
+                    body_ = [b for b in n.body if not (isinstance(b, ast.Expr) and isinstance(b.value, ast.Constant))]
+                    if len(body_) >= 2 and isinstance(body_[-1], ast.Return) and isinstance(body_[-1].value, ast.Name) and body_[-1].value.id in params:
+                        p_ = body_[-1].value.id
+                        good = True
+                        for b in body_[:-1]:
+                            if not (isinstance(b, ast.If) and not b.orelse and len(b.body) == 1 and isinstance(b.body[0], ast.Return) and b.body[0].value is not None
+                                    and isinstance(b.test, ast.Call) and isinstance(b.test.func, ast.Name) and b.test.func.id == "isinstance" and len(b.test.args) == 2
+                                    and isinstance(b.test.args[0], ast.Name) and b.test.args[0].id == p_):
+                                good = False
+                                break
+                            rv = b.body[0].value
+                            types_ = b.test.args[1].elts if isinstance(b.test.args[1], ast.Tuple) else [b.test.args[1]]
+                            if isinstance(rv, ast.Name) and rv.id == p_:
+                                continue
+                            if conv_of(rv, p_) and all(dotted_name(x) in _WIDENING_TYPES for x in types_):
+                                continue
+                            good = False
+                            break
+                        if good:
+                            n.body = [body_[-1]]
+                            changed = True
                 i = 0
                 while i < len(n.body):
                     st = n.body[i]
